@@ -9,10 +9,12 @@ _BOUNDED = ("Bounded: the verdict covers every input inside the per-harness boun
 
 REGISTRY = {
     "C01": dict(
-        modules=["harness.c01_algebra", "harness.c01_arrays"],
+        modules=["harness.c01_algebra", "harness.c01_arrays", "harness.c01_compile"],
         technique="CrossHair symbolic execution of the real matcher classes (symbolic posting lists) vs list algebra; z3 decides every path",
         text="Symbolic execution (CrossHair+z3) of the shipped matcher classes over symbolic ascending posting lists, depth 1 and "
-             "every depth-2 nesting of the binary classes, compared with list algebra; 'Confirmed over all paths' required.",
+             "every depth-2 nesting of the binary classes, compared with list algebra; plus symbolic query-shape codes driving the real "
+             "query->matcher compilation and every search access path on five physical layouts against a reference evaluator over the "
+             "corpus model; 'Confirmed over all paths' required.",
         note=_BOUNDED),
     "C13": dict(
         modules=["harness.c13_numeric"], e2=True, engine="E2-pybmc",
@@ -51,6 +53,28 @@ REGISTRY["C04"] = dict(
          "the lock is held, a successful competitor's commit must survive, generations advance by one per commit.  try_for is executed "
          "symbolically with a symbolic clock and symbolic acquire outcomes.",
     note=_BOUNDED + "  One process; flock semantics between processes are trusted.")
+
+REGISTRY["C15"] = dict(
+    modules=["harness.c15_rewrite"],
+    technique="CrossHair symbolic query-tree codes over the real normalize/simplify/operator/copy code; equivalence decided on an index with one document per observable document type",
+    text="Query trees are built from symbolic shape/leaf codes; each rewrite of the real query classes must match exactly the same of 128 "
+         "document types (all combinations of the features the leaf vocabulary can observe; queries are document-local), normalize must be "
+         "idempotent and never raise, estimate_size must not be below the match count.",
+    note=_BOUNDED + "  Known findings KF-C15-1..3 are excluded by predicate and witnessed separately.")
+REGISTRY["C05"] = dict(
+    modules=["harness.c05_topn"],
+    technique="CrossHair symbolic query codes driving the real collectors/matchers with block-quality pruning on multi-block posting lists; limit=k vs exhaustive prefix",
+    text="For every generated query, weighting model, layout and k the real limited search (replace/skip_to_quality engaged: measured per "
+         "path) must return exactly the k-prefix of the exhaustive ranking with identical scores, and the exact total.",
+    note=_BOUNDED)
+
+REGISTRY["C07"] = dict(
+    modules=["harness.c07_model"],
+    technique="CrossHair symbolic operation-code programs executed on the real writer/reader stack against a dictionary model",
+    text="Every program of L operation codes (symbolic) over add/update/delete-by-term/-query/-docnum/commit/optimize/cancel is run on a "
+         "real index; after every commit or cancel all read APIs (doc_count, stored fields, Every, Term, Not, postings, sorted search, "
+         "facets, delete return values) must equal the dictionary model.",
+    note=_BOUNDED)
 
 _PENDING = "check not built yet in this round (work in progress; see DESIGN.md section 4)"
 NOT_APPLICABLE = {("C%02d" % i): _PENDING for i in range(1, 21) if ("C%02d" % i) not in REGISTRY}
